@@ -384,3 +384,150 @@ def correspondence_sys(ctx, rng, dist):
                           {"case": describe(case), "impl": str(a.tolist()), "kind": "sde"})
     if cases:
         ctx.sample({"sse_case": describe(cases[-1]), "impl_final_state": str(canon_impl(impl[-1]))})
+
+
+# ------------------------------------ term cache of StochasticOpenSystem
+TERMS = ["Ta", "Tb", "TLb", "TLa", "TL0b", "TLLb", "TL0a", "Texpect"]
+SITE_L0A = "sode/ssystem.pyx:StochasticOpenSystem._compute_L0a"
+
+
+def _call_term(sysobj, tm):
+    f = {"Ta": lambda: sysobj.a(), "Tb": lambda: sysobj.bi(0), "TLb": lambda: sysobj.Libj(0, 0),
+         "TLa": lambda: sysobj.Lia(0), "TL0b": lambda: sysobj.L0bi(0),
+         "TLLb": lambda: sysobj.LiLjbk(0, 0, 0), "TL0a": lambda: sysobj.L0a(),
+         "Texpect": lambda: sysobj.expect_i(0)}[tm]
+    v = f()
+    return np.array(v.to_array()).copy() if hasattr(v, "to_array") else np.array([[complex(v)]])
+
+
+def gen_cache_case(rng):
+    dim = 2
+    def gi(lo, hi):
+        return complex(rng.randrange(lo, hi + 1), rng.randrange(lo, hi + 1))
+    h = np.array([[gi(-2, 2) for _ in range(dim)] for _ in range(dim)])
+    H = np.triu(h, 1) + np.triu(h, 1).conj().T + np.diag([1.0, -1.0])
+    c = np.array([[gi(-2, 2) / 2 for _ in range(dim)] for _ in range(dim)])
+    if not np.any(c - c[0, 0] * np.eye(dim)):
+        c[0, 1] += 1
+    ops = []
+    nstates = 0
+    states = []
+    style = rng.choice(["stepper", "random", "random"])
+    for _ in range(rng.choice([2, 3, 5])):
+        nstates += 1
+        r = np.array([[gi(-3, 3) / 4 for _ in range(dim)] for _ in range(dim)])
+        rho = np.triu(r, 1) + np.triu(r, 1).conj().T + np.diag([0.25 * nstates, 1 - 0.25 * nstates])
+        states.append(rho)
+        ops.append(["set", nstates])
+        if style == "stepper":
+            prog = rng.choice([["Ta", "TL0a", "Tb", "TLb", "TLa", "TL0b", "TLLb"],
+                               ["Ta", "Tb", "TLb", "TLa", "TL0b", "TLLb"],
+                               ["Ta", "Texpect", "Tb", "TLb"], ["Texpect", "Ta", "Tb", "TLb"]])
+        else:
+            prog = [rng.choice(TERMS) for _ in range(rng.randrange(0, 6))]
+        ops += [["get", tm] for tm in prog]
+    return {"H": H, "c": c, "states": states, "ops": ops}
+
+
+def run_cache_impl(case):
+    import qutip
+    from qutip.solver.sode.ssystem import StochasticOpenSystem
+    H = qutip.QobjEvo(qutip.Qobj(case["H"]))
+    c = qutip.QobjEvo(qutip.Qobj(case["c"]))
+
+    def vec(a):
+        return qutip.operator_to_vector(qutip.Qobj(a)).data
+    # reference values: a fresh object per state, a() first
+    ref = [None]
+    for rho in case["states"]:
+        f = StochasticOpenSystem(H, [c], [])
+        f.set_state(0., vec(rho))
+        ref.append({tm: _call_term(f, tm) for tm in ["Ta", "Tb", "TLb", "TLa", "TL0b", "TLLb",
+                                                     "TL0a", "Texpect"]})
+    sysobj = StochasticOpenSystem(H, [c], [])
+    prov = []
+    cur = 0
+    for op in case["ops"]:
+        if op[0] == "set":
+            cur = op[1]
+            sysobj.set_state(0., vec(case["states"][cur - 1]))
+            prov.append(None)
+        else:
+            v = _call_term(sysobj, op[1])
+            hits = [j for j in range(1, len(ref)) if np.array_equal(v, ref[j][op[1]])]
+            if not hits and not np.any(v):
+                hits = [0]
+            # (two states may give the same value, e.g. the same expectation:
+            # then the current state is taken if it is among the candidates)
+            prov.append(cur if cur in hits else (hits[0] if hits else -1))
+    return prov
+
+
+def coq_cache_expr(case):
+    return "snd (c_run cache0 %s)" % clist(
+        case["ops"], lambda o: "SetState %s" % cnat(o[1]) if o[0] == "set" else "Get %s" % o[1])
+
+
+def correspondence_cache(ctx, rng, dist):
+    """Which (t, state) each term returned by the real StochasticOpenSystem
+    was computed from (found by bitwise comparison with fresh objects), versus
+    the cache model; and the property itself: every term read after set_state
+    belongs to the state just set."""
+    n = 60 if ctx.quick else 800
+    cases = [gen_cache_case(rng) for _ in range(n)]
+    impl = []
+    kept = []
+    for c in cases:
+        try:
+            impl.append(run_cache_impl(c))
+            kept.append(c)
+        except Exception as e:
+            ctx.violation("sode/ssystem.pyx:StochasticOpenSystem", "raises:" + type(e).__name__,
+                          "accessor sequence raises %r" % (e,), {"ops": c["ops"], "kind": "cache"})
+    cases = kept
+    try:
+        vals = vlib.coq_eval_values("cases_C17_cache", HEADER, [coq_cache_expr(c) for c in cases],
+                                    chunk=200)
+    except RuntimeError as e:
+        ctx.violation("corr:C17:cache-model-eval", "coqc", "cache model evaluation failed",
+                      {"log": str(e)}, found_input=False)
+        return
+    d = dist.setdefault("cache_ops", {"cases": 0, "gets": 0})
+    for case, prov, v in zip(cases, impl, vals):
+        mv = vlib.parse_coq_value(v)
+        model = []
+        for op, x in zip(case["ops"], mv):
+            if x is None:
+                model.append(None)
+            else:
+                k, k2 = x[1]
+                model.append(k2 if op[1] == "TL0a" else k)
+        d["cases"] += 1
+        d["gets"] += sum(1 for o in case["ops"] if o[0] == "get")
+        ctx.count_case(("cache", repr(case["ops"]), str(case["c"].tolist())),
+                       nontrivial=len(case["ops"]) >= 4)
+        ctx.cov["traces_validated_against_impl"] += 1
+        # the property: provenance == index of the last set_state
+        cur, stale = 0, None
+        for i, (op, pv) in enumerate(zip(case["ops"], prov)):
+            if op[0] == "set":
+                cur = op[1]
+            elif pv != cur and stale is None:
+                stale = (i, op[1], pv, cur)
+        detail = {"kind": "cache", "H": str(case["H"].tolist()), "c": str(case["c"].tolist()),
+                  "states": [str(x.tolist()) for x in case["states"]], "ops": case["ops"],
+                  "impl_provenance": prov, "model_provenance": model}
+        if model != prov:
+            ctx.violation("corr:sode/ssystem.pyx:StochasticOpenSystem.cache", "model-differs",
+                          "cache model and implementation disagree on which state a term was "
+                          "computed from" + ("; op %d (%s) was computed from state %d, current "
+                                             "is %d" % stale if stale else ""),
+                          detail, found_input=stale is not None)
+        elif stale is not None:
+            sig = "L0a-before-a-uses-stale-drift" if stale[1] == "TL0a" else "stale-" + stale[1]
+            ctx.violation(SITE_L0A if stale[1] == "TL0a" else
+                          "sode/ssystem.pyx:StochasticOpenSystem.set_state", sig,
+                          "after set_state, accessor %s (op %d) returns a value computed from "
+                          "state %d instead of the current state %d" % (stale[1], stale[0],
+                                                                        stale[2], stale[3]),
+                          detail)
